@@ -365,6 +365,12 @@ def generate(repo, verif):
     dl_fw, dl_pv, dl_fb, oog1 = parse_dl(dlcpp, "DLProblem", csig.get("alpaqa_problem_functions_t", {}))
     dlc_fw, dlc_pv, _, oog2 = parse_dl(dlcpp, "DLControlProblem", csig.get("alpaqa_control_problem_functions_t", {}))
     status["out_of_grammar"] += nlp["oog"] + ocp["oog"] + oog1 + oog2
+    # every member of the C function tables is referenced by the C++ side (an entry nobody reads is not a forwarder of anything)
+    referenced = set(re.findall(r"functions\s*->\s*(%s)" % ID, dlcpp))
+    for sname, d in csig.items():
+        for nm in d:
+            if nm not in referenced:
+                status["out_of_grammar"].append("%s: member %s is never read by dl-problem.cpp" % (sname, nm))
     for nm, w in (("ProblemWithCounters", nlp), ("ControlProblemWithCounters", ocp)):
         if not w["found"] or not w["methods"]:
             status["out_of_grammar"].append("%s: struct or members not found" % nm)
